@@ -15,8 +15,8 @@ pub fn def() -> PropDef {
         name: "verify-differential",
         cfg_len: 0,
         tape_max: 200,
-        quick: 40_000,
-        thorough: 2_000_000,
+        quick: 150_000,
+        thorough: 5_000_000,
         max_shrink_iters: 1500,
         run: run_diff,
     }];
